@@ -296,16 +296,20 @@ fn gen_wellformed(rng: &mut Rng, seq: &mut u8) -> String {
     match rng.below(10) {
         0..=3 if *seq < 250 => {
             *seq = seq.wrapping_add(1);
-            let a = match rng.below(4) {
+            let a = match rng.below(6) {
                 0 => format!("{:x}", SEQ_CELL),
                 1 => format!("{:X}", SEQ_CELL),
                 2 => format!("00{:x}", SEQ_CELL),
+                3 => format!("{:0>14x}", SEQ_CELL),
+                4 => format!("{:0>40x}", SEQ_CELL),
                 _ => format!("{:08x}", SEQ_CELL),
             };
             format!("u8:{}:{:x}", a, *seq)
         }
         4 | 5 => {
-            let a = match rng.below(4) {
+            let a = match rng.below(5) {
+                // first / last bytes of the mapped regions (none of them is used by these guests)
+                4 => *rng.pick(&[0x5f_ffffu32, 0xff_ff1f, 0xff, 0xff_bf20, 0x40_0000, 0xfe_e0ff, 0xff_ffe9]),
                 0 => SCRATCH_LO + rng.below((SCRATCH_HI - SCRATCH_LO) as u64) as u32,
                 1 => 0x45_0000 + rng.below(64) as u32, // DRAM, not used by the guest
                 2 => 0xc0 + rng.below(32) as u32,      // vector area, no interrupts in these guests
@@ -342,7 +346,7 @@ impl Property for C18 {
 
     fn generate(rng: &mut Rng, tier: Tier, _i: u64) -> Scn {
         // mostly short scripts; 1 in 40 is a burst of hundreds of lines (a controller that writes faster than the loop polls)
-        let n = if rng.chance(1, 40) { rng.range(200, 700) } else { rng.range(1, if tier == Tier::Quick { 30 } else { 60 }) } as usize;
+        let n = if rng.chance(1, 150) { rng.range(200, 700) } else { rng.range(1, if tier == Tier::Quick { 30 } else { 60 }) } as usize;
         let malformed_pct = *rng.pick(&[0u64, 10, 30, 60]);
         let mut script = Vec::new();
         let mut seq = 0u8;
@@ -362,7 +366,8 @@ impl Property for C18 {
             script.push("cmd:start".into());
         }
         // batching
-        let mode = rng.below(4);
+        let big = script.len() >= 200;
+        let mode = if big { 4 } else { rng.below(4) };
         let mut batches: Vec<(u64, usize)> = Vec::new();
         let mut it = if rng.chance(1, 3) { 0 } else { rng.below(20) };
         let mut left = script.len();
@@ -370,11 +375,12 @@ impl Property for C18 {
             let k = match mode {
                 0 => left,
                 1 => 1,
+                4 => rng.range(left.min(100) as u64, left.min(400) as u64) as usize,
                 _ => rng.range(1, left.min(8) as u64) as usize,
             };
             batches.push((it, k));
             left -= k;
-            it += match rng.below(4) {
+            it += match if big { rng.below(3) } else { rng.below(4) } {
                 0 => 0,
                 1 => 1,
                 2 => rng.below(6),
@@ -419,7 +425,7 @@ impl Property for C18 {
             }
         }
         for (a, _) in &m.pokes {
-            let ok = *a == SEQ_CELL || (SCRATCH_LO..SCRATCH_HI).contains(a) || (0x45_0000..0x45_0100).contains(a) || (0xc0..0x100).contains(a);
+            let ok = *a == SEQ_CELL || (SCRATCH_LO..SCRATCH_HI).contains(a) || (0x45_0000..0x45_0100).contains(a) || (0xc0..0x100).contains(a) || [0x5f_ffffu32, 0xff_ff1f, 0xff_bf20, 0x40_0000, 0xfe_e0ff, 0xff_ffe9].contains(a);
             if !ok {
                 return Verdict::Invalid("poke outside the scratch targets".into());
             }
@@ -451,6 +457,8 @@ impl Property for C18 {
                     0..=0xff => exp.cpu.bus.exception_handling_vector[*a as usize] = *v,
                     0x400000..=0x5fffff => exp.cpu.bus.dram[(*a - 0x400000) as usize] = *v,
                     0xffbf20..=0xffff1f => exp.cpu.bus.memory[(*a - 0xffbf20) as usize] = *v,
+                    0xfee000..=0xfee0ff => exp.cpu.bus.io_registrs1[(*a - 0xfee000) as usize] = *v,
+                    0xffff20..=0xffffe9 => exp.cpu.bus.io_registrs2[(*a - 0xffff20) as usize] = *v,
                     _ => {}
                 }
             }
@@ -460,6 +468,8 @@ impl Property for C18 {
             }
             let mut win = g.dram_windows.clone();
             win.push((0x45_0000, 0x45_0100));
+            win.push((0x40_0000, 0x40_0010));
+            win.push((0x5f_fff0, 0x60_0000));
             // the stack is not used by these guests (no calls, no traps)
             let d_exp = digest_state(&exp.cpu, &win, &[]);
             let d_real = digest_state(&run.sim.cpu, &win, &[]);
